@@ -112,6 +112,8 @@ type job struct {
 	// ToGoHTML: render with templ.ToGoHTML (the root package's pooled bytes.Buffer) instead of
 	// Render into a writer; Out is the returned HTML.
 	ToGoHTML bool ` + "`json:\"to_go_html\"`" + `
+	// Overlap: see runOverlap.
+	Overlap bool ` + "`json:\"overlap\"`" + `
 	// B64: s1, s2 and xs are base64 (JSON cannot carry invalid UTF-8 or NUL-free guarantees).
 	B64 bool ` + "`json:\"b64\"`" + `
 }
@@ -147,6 +149,9 @@ func slotFor(n int) *bufSlot {
 
 type result struct {
 	Out           []byte   ` + "`json:\"out\"`" + `
+	Out2          []byte   ` + "`json:\"out2\"`" + `
+	Ref1          []byte   ` + "`json:\"ref1\"`" + `
+	Ref2          []byte   ` + "`json:\"ref2\"`" + `
 	Err           string   ` + "`json:\"err\"`" + `
 	Boom          bool     ` + "`json:\"boom\"`" + `
 	WriterErr     bool     ` + "`json:\"writer_err\"`" + `
@@ -185,6 +190,84 @@ func (w *faultWriter) Write(p []byte) (int, error) {
 		return n, errWriter
 	}
 	return w.buf.Write(p)
+}
+
+// gateWriter parks its first Write (a slow client) until released; the bytes are taken only then.
+type gateWriter struct {
+	buf     bytes.Buffer
+	entered chan struct{}
+	release chan struct{}
+	once    sync.Once
+}
+
+func (g *gateWriter) Write(p []byte) (int, error) {
+	g.once.Do(func() {
+		close(g.entered)
+		<-g.release
+	})
+	return g.buf.Write(p)
+}
+
+// runOverlap renders the job's program twice on one processor: the first render is parked inside
+// its writer's first Write (for documents below templ's buffer size that is the final flush),
+// the second runs to completion meanwhile. Out is what the parked writer received in the end,
+// Out2 what the second writer received. Programs that use tick() share its trace: not for them.
+func runOverlap(j job) (r result) {
+	defer runtime.GOMAXPROCS(runtime.GOMAXPROCS(1))
+	a := j.Args
+	// the second render gets other arguments, so that the two documents differ
+	a2 := a
+	a2.S1, a2.S2, a2.B1, a2.N = "second-"+a.S2, "render-"+a.S1, !a.B1, a.N+1
+	mk := func() templ.Component { return roots[j.K](a.S1, a.S2, a.B1, a.B2, a.N, a.XS, a.Fail, marker) }
+	mk2 := func() templ.Component { return roots[j.K](a2.S1, a2.S2, a2.B1, a2.B2, a2.N, a2.XS, a2.Fail, marker) }
+	// what each of them writes when it runs alone
+	var ref1, ref2 bytes.Buffer
+	if err := mk().Render(context.Background(), &ref1); err != nil {
+		r.Err = "first render alone: " + err.Error()
+		return r
+	}
+	if err := mk2().Render(context.Background(), &ref2); err != nil {
+		r.Err = "second render alone: " + err.Error()
+		return r
+	}
+	r.Ref1, r.Ref2 = ref1.Bytes(), ref2.Bytes()
+	gw := &gateWriter{entered: make(chan struct{}), release: make(chan struct{})}
+	done := make(chan error, 1)
+	go func() {
+		defer func() {
+			if x := recover(); x != nil {
+				done <- fmt.Errorf("panic: %v", x)
+			}
+		}()
+		done <- mk().Render(context.Background(), gw)
+	}()
+	var err1 error
+	finished := false
+	select {
+	case <-gw.entered:
+	case err1 = <-done:
+		finished = true
+	}
+	var second bytes.Buffer
+	err2 := func() (err error) {
+		defer func() {
+			if x := recover(); x != nil {
+				err = fmt.Errorf("panic: %v", x)
+			}
+		}()
+		return mk2().Render(context.Background(), &second)
+	}()
+	if !finished {
+		close(gw.release)
+		err1 = <-done
+	}
+	r.Out, r.Out2 = gw.buf.Bytes(), second.Bytes()
+	if err1 != nil {
+		r.Err = "parked render: " + err1.Error()
+	} else if err2 != nil {
+		r.Err = "second render: " + err2.Error()
+	}
+	return r
 }
 
 func failingMarker(after int) templ.Component {
@@ -296,6 +379,10 @@ func main() {
 	n, _ := strconv.Atoi(os.Getenv("VERIF_PARALLEL"))
 	if n <= 1 {
 		for _, j := range jobs {
+			if j.Overlap {
+				_ = enc.Encode(runOverlap(j))
+				continue
+			}
 			_ = enc.Encode(runJob(j, false))
 		}
 		return
